@@ -71,18 +71,18 @@ _EVAL_TRUSTED = _OPS_TRUSTED + [
     'compute_attractor_states (driver of the foreign ITGR + Xie-Beerel algorithms of biodivine-algo-bdd-scc): ASSUMED to return, inside the given universe, exactly the states satisfying !{x}: AG EF {x}',
     'get_canonical_and_renaming: in unit eval only its abstract contract is used (result = canon_str / canon_map of the text) together with two ASSUMED facts about canonical forms of rendered trees (axiom_canon_wild, axiom_canon_not_wild in spec/evalctx.rs): a wild-card proposition with a plain label is its own canonical form, and nothing else has a canonical form of that shape',
     'prelude/std_model.rs: String keys obey the hash-map key model, a String / BTreeMap is determined by its contents, a &str key denotes the String with the same characters, HashMap::get_mut; R-mapindex (map[&k] = *map.get(&k).unwrap()), R-refiter (for x in &m = for x in m.iter()), R-tupleclone, R-tostr (Display of HctlTreeNode prints formula_str)',
-    'cache soundness (C04) is proved modulo (a) the ASSUMED semantic soundness of canonical keys axiom_key_sound (= the only-if direction of C09), (b) the ASSUMED contract of mark_duplicates (keys of formulae with at most one variable name, counters >= 1), (c) wild-card counters that cover the occurrences still to be evaluated (budget_pre), and (d) the two KNOWN FINDINGS D5 / D8 (known_findings.json): the assertions hit_universe_ok / hit_slot_ok in the cache-hit path are false for the current repository code',
+    'cache soundness (C04) is proved modulo (a) the ASSUMED semantic soundness of canonical keys axiom_key_sound (= the only-if direction of C09), (b) the contract of mark_duplicates (keys of formulae with at most one variable name, counters >= 1) PROVED in unit mark over a model of BinaryHeap as a bag whose pop returns some element (prelude/std_model.rs) and with the Ord / PartialEq impls of NodeWithDomains as trusted stand-ins (only the order of traversal depends on them), batches with fewer than 2^31 nodes, (c) wild-card counters that cover the occurrences still to be evaluated (budget_pre), and (d) the two KNOWN FINDINGS D5 / D8 (known_findings.json): the assertions hit_universe_ok / hit_slot_ok in the cache-hit path are false for the current repository code',
     'names: HCTL variable names have a slot in the graph (byte length - 1 < number of extra variable sets), nested quantifiers use distinct slots (preprocessing names them x, xx, ... by depth), propositions are network variables, domain sets do not depend on the auxiliary variables, context sets lie inside the unit set',
 ]
 _EVAL_ASSUME = ['the graph handed to the evaluator carries its BooleanNetwork (as_network() is Some) and its unit set satisfies the regulation constraints and does not constrain state or auxiliary variables (graphs built by get_extended_symbolic_graph)']
 
 PROPS['C01'] = {
-    'units': ['ops', 'eval', 'api', 'front', 'lex', 'tree'],
+    'units': ['ops', 'eval', 'api', 'front', 'lex', 'tree', 'mark'],
     'level_text': ('Proof that the recursive evaluator eval_node returns, for every graph, every well-formed tree over all operators and every '
                    'context, a set that agrees with the HCTL semantics `sem` (spec/sem.rs, written from the statement: self-loops on states '
                    'without successors, least/greatest fixed points, bind/jump/exists/forall) inside the graph\'s unit set; every operator '
                    'function is proved equal to its fixed-point specification for all argument sets and all numbers of iterations.'),
-    'level_note': 'Trusted: Verus/Z3, the assumed model of the BDD/graph library, extraction rules, attractor algorithm, facts about canonical keys (axiom_key_sound, axiom_canon_*), contract of mark_duplicates, known findings D5 / D8. The plain string / tree entry points (dirty and sanitising, single and batch) are proved end to end: Ok(v) => v agrees with the semantics of the preprocessed formula inside the unit set and does not leave it; Err => the text is rejected for one of the documented reasons. Extended (wild-card) entry points are not yet under contract.',
+    'level_note': 'Trusted: Verus/Z3, the assumed model of the BDD/graph library, extraction rules, attractor algorithm, facts about canonical keys (axiom_key_sound, axiom_canon_*), known findings D5 / D8. The plain string / tree entry points (dirty and sanitising, single and batch) are proved end to end: Ok(v) => v agrees with the semantics of the preprocessed formula inside the unit set and does not leave it; Err => the text is rejected for one of the documented reasons. Extended (wild-card) entry points are not yet under contract.',
     'explanation': ('eval_node (algorithm.rs) is verified arm by arm: each arm combines the proved postcondition of the operator (unit ops) with a proved '
                     '"arm lemma" (spec/sem_arms.rs) showing that the operator preserves the invariant ok(g, result, sem) = agreement inside unit(g) '
                     'and containment in the base unit set; recursion on the tree is proved terminating.'),
@@ -105,7 +105,7 @@ PROPS['C02'] = {
     'trusted': _EVAL_TRUSTED, 'assumptions': _EVAL_ASSUME,
 }
 PROPS['C03'] = {
-    'units': ['ops', 'eval', 'api', 'front', 'lex', 'tree'],
+    'units': ['ops', 'eval', 'api', 'front', 'lex', 'tree', 'mark'],
     'level_text': ('Proof that every set returned by eval_node is a subset of the base graph\'s unit set (second half of the invariant `ok`), '
                    'for all graphs with constrained parameters and all formulae, and that every atomic evaluation (propositions, variables, constants) '
                    'is intersected with the unit set. Independence of closed results from the auxiliary variables is not yet a proved lemma.'),
@@ -124,8 +124,8 @@ PROPS['C12'] = {
     'trusted': _EVAL_TRUSTED, 'assumptions': _EVAL_ASSUME,
 }
 PROPS['C18'] = {
-    'units': ['ops', 'eval', 'api', 'front', 'lex', 'tree'],
-    'functions': {'ops': ['eval_ex', 'eval_ax', 'eval_eg', 'eval_af', 'eval_au', 'eval_ew', 'eval_neg'], 'eval': ['eval_node', 'compute_steady_states', 'is_fixed_point_pattern', 'is_attractor_pattern'],
+    'units': ['ops', 'eval', 'api', 'front', 'lex', 'tree', 'mark'],
+    'functions': {'mark': [], 'ops': ['eval_ex', 'eval_ax', 'eval_eg', 'eval_af', 'eval_au', 'eval_ew', 'eval_neg'], 'eval': ['eval_node', 'compute_steady_states', 'is_fixed_point_pattern', 'is_attractor_pattern'],
                   'api': ['model_check_formula_unsafe_ex', 'parse_and_validate', '_model_check_formula_dirty', 'model_check_formula_dirty', '_model_check_multiple_formulae_dirty'],
                   'front': [], 'lex': [], 'tree': []},
     'level_text': ('Proof that model_check_formula_unsafe_ex satisfies the very specification proved for the safe entry point model_check_formula_dirty '
@@ -133,7 +133,7 @@ PROPS['C18'] = {
                    'when the text is rejected) under the precondition of the statement: the network has no steady state, or the accepted formula contains none of '
                    'EX, AX, AF, EG, AU, EW. Underneath: eval_node is proved correct for an ARBITRARY self-loop set on loop-insensitive formulae, and '
                    'lemma_loop_insensitive shows that the semantics of such formulae does not depend on the self-loop set.'),
-    'level_note': 'Same trusted base as C01 (contract of mark_duplicates assumed in EvalContext::from_single_tree). Known findings D5 / D8 apply to the shared evaluator.',
+    'level_note': 'Same trusted base as C01. Known findings D5 / D8 apply to the shared evaluator.',
     'explanation': 'contracts/api.ctr: model_check_formula_unsafe_ex; lemma_loop_insensitive (spec/sem_laws.rs); parametric contract of eval_node; eval_ex / eval_ax / eval_eg / eval_au specifications carry the self-loop set explicitly.',
     'trusted': _EVAL_TRUSTED, 'assumptions': _EVAL_ASSUME,
 }
@@ -179,8 +179,8 @@ PROPS['C07'] = {
 }
 
 PROPS['C04'] = {
-    'units': ['ops', 'eval', 'api', 'front', 'lex', 'tree'],
-    'functions': {'ops': ['substitute_hctl_var', 'create_comparator_two_vars', 'create_equalizer', 'project_out_hctl_var'], 'eval': ['eval_node'],
+    'units': ['ops', 'eval', 'api', 'front', 'lex', 'tree', 'mark'],
+    'functions': {'mark': None, 'ops': ['substitute_hctl_var', 'create_comparator_two_vars', 'create_equalizer', 'project_out_hctl_var'], 'eval': ['eval_node'],
                   'api': ['_model_check_multiple_trees_dirty', 'model_check_multiple_trees_dirty', '_model_check_tree_dirty', 'model_check_tree_dirty',
                           '_model_check_multiple_formulae_dirty', 'model_check_multiple_formulae_dirty', '_model_check_multiple_trees', 'model_check_multiple_trees',
                           '_model_check_multiple_formulae', 'model_check_multiple_formulae', 'parse_and_validate'],
@@ -190,13 +190,13 @@ PROPS['C04'] = {
                    'renaming of its at most one variable), every store and every counter update re-establishes it, so the result of eval_node agrees '
                    'with the semantics whatever the evaluation history is. Two obligations of the hit path FAIL on the repository code and are '
                    'recorded as known findings D5 / D8 with failing inputs (sharing across differently restricted scopes is unsound).'),
-    'level_note': 'Assumed: axiom_key_sound (equal canonical keys => semantics equal up to renaming of the one variable; the soundness direction of C09), the contract of mark_duplicates, wild-card budget. Entry points (batches) are not yet under contract: batch transparency follows from this invariant but is not a discharged obligation yet.',
+    'level_note': 'Assumed: axiom_key_sound (equal canonical keys => semantics equal up to renaming of the one variable; the soundness direction of C09), wild-card budget. Entry points (batches) are not yet under contract: batch transparency follows from this invariant but is not a discharged obligation yet.',
     'explanation': 'contracts/eval.ctr: hit path (witness extraction, loops over the two renaming maps with ghost iterators, lemma_hit_rename / lemma_hit_closed), store paths (lemma_store_entry), counters (ctx_inv clause 1), wild-card budget lemmas.',
     'trusted': _EVAL_TRUSTED, 'assumptions': _EVAL_ASSUME,
 }
 
 PROPS['C14'] = {
-    'units': ['api', 'front', 'lex', 'tree', 'eval', 'ops'],
+    'units': ['api', 'front', 'lex', 'tree', 'eval', 'ops', 'mark'],
     'level_text': ('Partial, at proof level: (i) panic-freedom: every function under contract (tokenizer, parser, renamer, all operators, eval_node, '
                    'the tree-based entry points, check_hctl_var_support) is verified with Verus\' built-in obligations for unwrap / unreachable! / indexing / '
                    'integer overflow, under the stated preconditions; (ii) "error exactly when": parse_and_minimize_* return Err exactly when the text is '
@@ -213,8 +213,8 @@ PROPS['C14'] = {
 UNIT_TIMEOUT['api'] = 600
 
 PROPS['C15'] = {
-    'units': ['api', 'eval', 'ops', 'front', 'lex', 'tree'],
-    'functions': {'api': ['sanitize_colored_vertices', '_model_check_multiple_trees', 'model_check_multiple_trees', '_model_check_tree', 'model_check_tree',
+    'units': ['api', 'eval', 'ops', 'front', 'lex', 'tree', 'mark'],
+    'functions': {'mark': [], 'api': ['sanitize_colored_vertices', '_model_check_multiple_trees', 'model_check_multiple_trees', '_model_check_tree', 'model_check_tree',
                           '_model_check_multiple_formulae', 'model_check_multiple_formulae', '_model_check_formula', 'model_check_formula',
                           '_model_check_multiple_trees_dirty', '_model_check_multiple_formulae_dirty', 'parse_and_validate'],
                   'eval': ['eval_node'], 'ops': [], 'front': [], 'lex': [], 'tree': []},
@@ -229,8 +229,8 @@ PROPS['C15'] = {
 }
 
 PROPS['C08'] = {
-    'units': ['api', 'front', 'lex', 'tree', 'eval', 'ops'],
-    'functions': {'eval': [], 'ops': [], 'api': ['parse_and_validate', '_model_check_multiple_formulae_dirty', 'model_check_multiple_formulae_dirty', '_model_check_formula_dirty', 'model_check_formula_dirty',
+    'units': ['api', 'front', 'lex', 'tree', 'eval', 'ops', 'mark'],
+    'functions': {'mark': [], 'eval': [], 'ops': [], 'api': ['parse_and_validate', '_model_check_multiple_formulae_dirty', 'model_check_multiple_formulae_dirty', '_model_check_formula_dirty', 'model_check_formula_dirty',
                           '_model_check_multiple_formulae', 'model_check_multiple_formulae', '_model_check_formula', 'model_check_formula'],
                   'front': None, 'lex': None, 'tree': None},
     'level_text': ('Proof, over the declarative specifications that the tokenizer, the parser and the renamer are proved to implement for every input, that each '
@@ -247,8 +247,8 @@ PROPS['C08'] = {
     'trusted': PROPS['C05']['trusted'] + PROPS['C07']['trusted'],
 }
 PROPS['C10'] = {
-    'units': ['api', 'eval', 'ops', 'front', 'lex', 'tree'],
-    'functions': {'front': [], 'lex': None, 'tree': [], 'api': [], 'eval': ['eval_node', 'eval_hybrid_quantifier', 'restrict_stg_unit_bdd'], 'ops': None},
+    'units': ['api', 'eval', 'ops', 'front', 'lex', 'tree', 'mark'],
+    'functions': {'mark': None, 'front': [], 'lex': None, 'tree': [], 'api': [], 'eval': ['eval_node', 'eval_hybrid_quantifier', 'restrict_stg_unit_bdd'], 'ops': None},
     'level_text': ('Proof (lemma_replaced, induction over the tree with the twelve operator lemmas) that replacing any number of sub-formulae by wild-card propositions '
                    'whose context sets agree with the semantics of the replaced sub-formulae inside the unit set leaves the semantics of every surrounding formula '
                    'unchanged inside the unit set, for every graph; proof on the code that eval_node serves a wild-card terminal by the supplied set (cache invariant '
@@ -262,8 +262,8 @@ PROPS['C10'] = {
     'trusted': _EVAL_TRUSTED, 'assumptions': _EVAL_ASSUME,
 }
 PROPS['C20'] = {
-    'units': ['api', 'eval', 'ops', 'front', 'lex', 'tree'],
-    'functions': {'front': [], 'lex': [], 'tree': [], 'api': ['_model_check_multiple_trees_dirty', '_model_check_multiple_formulae_dirty', 'parse_and_validate', 'sanitize_colored_vertices'], 'eval': None, 'ops': None},
+    'units': ['api', 'eval', 'ops', 'front', 'lex', 'tree', 'mark'],
+    'functions': {'mark': [], 'front': [], 'lex': [], 'tree': [], 'api': ['_model_check_multiple_trees_dirty', '_model_check_multiple_formulae_dirty', 'parse_and_validate', 'sanitize_colored_vertices'], 'eval': None, 'ops': None},
     'level_text': ('Proof (lemma_colour_local / lemma_c20, induction over the tree; least and greatest fixed points by transporting closed / dense sets between the two '
                    'systems) that the slice of the HCTL semantics at a colour c is determined by the transitions, the self-loops and the validity of colour c alone: '
                    'any two transition systems that agree at c -- a parametrised network and its instantiation by c, or the same network with other colours added or '
